@@ -58,10 +58,30 @@ def union(xs):
     return z3.Union(*xs)
 
 
-_CATEGORIES = {
-    # only the ASCII flag-free meanings that py_gql's patterns could need are NOT assumed:
-    # \d, \w, \s in str patterns are Unicode aware -> unsupported (harness error) on purpose.
-}
+# \d, \w, \s (and their negations) in str patterns are Unicode aware: their exact member ranges are computed from the
+# live `re` module, code point by code point, up to z3's largest character (U+2FFFF); nothing is assumed about them.
+_MAXCHAR = 0x2FFFF
+_CATEGORY_PATTERN = {"CATEGORY_DIGIT": r"\d", "CATEGORY_NOT_DIGIT": r"\D", "CATEGORY_WORD": r"\w", "CATEGORY_NOT_WORD": r"\W",
+                     "CATEGORY_SPACE": r"\s", "CATEGORY_NOT_SPACE": r"\S"}
+_CATEGORY_CACHE = {}
+
+
+def category(av):
+    name = str(av)
+    if name not in _CATEGORY_PATTERN:
+        raise Unsupported("category %s" % (av,))
+    if name not in _CATEGORY_CACHE:
+        m = re.compile(_CATEGORY_PATTERN[name]).match
+        ranges, start = [], None
+        for cp in range(_MAXCHAR + 2):
+            inside = cp <= _MAXCHAR and m(chr(cp)) is not None
+            if inside and start is None:
+                start = cp
+            elif not inside and start is not None:
+                ranges.append((start, cp - 1))
+                start = None
+        _CATEGORY_CACHE[name] = ranges
+    return union([rng(chr(a), chr(b)) if a != b else lit(chr(a)) for a, b in _CATEGORY_CACHE[name]])
 
 
 def charclass(items):
@@ -74,6 +94,8 @@ def charclass(items):
             parts.append(lit(chr(av)))
         elif op is C.RANGE:
             parts.append(rng(chr(av[0]), chr(av[1])))
+        elif op is C.CATEGORY:
+            parts.append(category(av))
         else:
             raise Unsupported("class item %s" % (op,))
     u = union(parts)
